@@ -189,6 +189,14 @@ func (p *Parser) parseGroupedExpression() Expression {
 		return nil
 	}
 
+	if p.peekTokenIs(LPAREN) || p.peekTokenIs(DOT) || p.peekTokenIs(LBRACKET) {
+		// "(name)(arguments)", "(a).b", "(a)[0]": what is in parentheses is complete, it is neither the
+		// name of a function nor the beginning of a document path
+		p.errors = append(p.errors, fmt.Sprintf("Syntax error; token: %q, near: %q", p.peekToken.Literal, ")"))
+
+		return nil
+	}
+
 	return exp
 }
 
@@ -410,6 +418,13 @@ func (p *Parser) parseUpdateActionExpression() Expression {
 }
 
 func (p *Parser) parseAction(token Token) *ActionExpression {
+	if p.curToken.Type == LPAREN {
+		// the target of an action is a document path, it cannot be put in parentheses
+		p.errors = append(p.errors, fmt.Sprintf("Syntax error; token: \"(\", near: %q", token.Literal))
+
+		return nil
+	}
+
 	action := &ActionExpression{
 		Token: token,
 		Left:  p.parseExpression(precedenceValueLowset),
